@@ -98,6 +98,25 @@ func (r *Runner) Build(order []int) *Obs {
 	return o
 }
 
+// BuildExisting builds the runner's collection as it is (registrations were
+// issued by the caller).
+func (r *Runner) BuildExisting() *Obs {
+	o := &Obs{Kind: "build", StartSeq: r.W.NextSeq()}
+	undo := r.W.SetOpScope(0)
+	defer undo()
+	guard(o, func() {
+		p, err := r.Coll.Build()
+		o.Err = err
+		if err == nil {
+			r.P = p
+			r.Scopes[0] = &ScopeRec{Tag: 0, Parent: -1, Created: true}
+		}
+	})
+	o.EndSeq = r.W.NextSeq()
+	r.addObs(o)
+	return o
+}
+
 type ctxKeyT struct{ n int }
 
 // SkipTag consumes a scope tag without creating a scope (keeps numbering
